@@ -1395,3 +1395,49 @@ Proof.
   pose proof (nearest_closest [0; 1; 3] 2 Ha ltac:(cbn; repeat constructor)) as Hc.
   rewrite Hn in Hc. exact Hc.
 Qed.
+
+(* ------------------------------------------------------------------ *)
+(* calling conventions by shape: which non-meshgrid inputs are accepted, and what comes back.
+   (gen_check_array_input, gen_is_valid_input_array, gen_out_shape_from_array are regenerated
+   from _check_interp_input and odl/util/vectorization.py.)                     *)
+Definition conv_ref (d : nat) (xshape : list nat) : option (list nat) :=
+  if (d =? 1)%nat then
+    match xshape with
+    | [] => Some []                      (* a scalar: one point, scalar result *)
+    | [n] => Some [n]                    (* n points *)
+    | [a; n] => if (a =? 1)%nat then Some [n] else None     (* (1, n): n points *)
+    | _ => None
+    end
+  else
+    match xshape with
+    | [a] => if (a =? d)%nat then Some [] else None         (* (d,): one point, scalar result *)
+    | [a; n] => if (a =? d)%nat then Some [n] else None     (* (d, n): n points *)
+    | _ => None
+    end.
+
+Lemma div_cancel_l d n : (1 <= d)%nat -> (d * (n * 1) / d = n)%nat.
+Proof. intros Hd. rewrite Nat.mul_1_r, Nat.mul_comm. apply Nat.div_mul. lia. Qed.
+
+
+Ltac sh := cbn [nats_eqb length nth fst snd prodn fold_right andb orb negb Nat.eqb].
+Ltac sh2 := sh; rewrite ?andb_false_r, ?Nat.ltb_irrefl; sh.
+Lemma array_call_shape_ref (d : nat) (xshape : list nat) : (1 <= d)%nat ->
+  array_call_shape d xshape = conv_ref d xshape.
+Proof.
+  intros Hd. unfold array_call_shape, conv_ref, gen_check_array_input, gen_is_valid_input_array,
+    gen_out_shape_from_array.
+  destruct (Nat.eqb_spec d 1) as [-> | Hd1].
+  - destruct xshape as [|a [|n [|c r]]]; sh2.
+    + reflexivity.
+    + rewrite !Nat.mul_1_r, Nat.mul_1_l, Nat.div_1_r. reflexivity.
+    + destruct (a =? 1)%nat eqn:E; sh2; [|reflexivity].
+      apply Nat.eqb_eq in E. subst a. rewrite !Nat.mul_1_r, Nat.mul_1_l, Nat.div_1_r. reflexivity.
+    + reflexivity.
+  - assert (H1 : (1 <? d)%nat = true) by (apply Nat.ltb_lt; lia).
+    destruct xshape as [|a [|n [|c r]]]; sh2; rewrite ?H1; sh2.
+    + reflexivity.
+    + destruct (a =? d)%nat eqn:E; sh2; [|reflexivity]. rewrite ?Nat.eqb_refl. reflexivity.
+    + destruct (a =? d)%nat eqn:E; sh2; [|reflexivity].
+      apply Nat.eqb_eq in E. subst a. rewrite div_cancel_l by exact Hd. reflexivity.
+    + reflexivity.
+Qed.
